@@ -1,4 +1,7 @@
+import Model.Broadcast
 import Model.Layout
 import Model.Paginate
 import Model.PaginateSpec
+import Model.Validate
+import Model.ValidateSpec
 import Model.Widths
